@@ -284,7 +284,7 @@ func (e *env) c18() {
 		strs[i] = strconv.Itoa(t)
 	}
 	thrArg := strings.Join(strs, ",")
-	e.r.Rule = fmt.Sprintf("valid positions (directed batteries on one target square, en-passant cases after the double push, the shared stream: roots/play-outs/sparse..dense/promotion-heavy) x every legal move x %d thresholds (every multiple of 100 in [-1000,1700] and its successor, the domain ends +-1800): heur.SEE vs Lean Model.See.see vs decide(thr <= Spec.seeValue) (impl vs spec differs = failing-input), the model's incrementally maintained capture sequence vs the spec's from-scratch one (hypothesis AttackersIncremental), monotonicity in the threshold checked in Go; evaluations = (move, threshold) pairs; non-trivial = (FEN, move) whose exchange has >= 1 recapturer, distinct by (FEN, move)", len(thrs))
+	e.r.Rule = fmt.Sprintf("valid positions (directed batteries on one target square, en-passant cases after the double push, the shared stream: roots/play-outs/sparse..dense/promotion-heavy) x every legal move x %d thresholds (every multiple of 100 in [-1000,1700] and its successor, the domain ends +-1800): heur.SEE vs Lean Model.See.see vs decide(thr <= Spec.seeValue) (impl vs spec differs = failing-input), the model's incrementally maintained capture sequence vs the spec's from-scratch one (the two sides of lemma attackers_incremental), monotonicity in the threshold checked in Go; evaluations = (move, threshold) pairs; non-trivial = (FEN, move) whose exchange has >= 1 recapturer, distinct by (FEN, move)", len(thrs))
 	for i := 0; i < n; i++ {
 		fen, src := e.nextC18()
 		b, valid := e.load("C18", fen)
@@ -333,7 +333,7 @@ func (e *env) c18() {
 				e.r.Fail(common.Mismatch{Property: "C18", Kind: "broken-correspondence", Ops: ops, Impl: string(impl), Model: f[0], Spec: string(spec)})
 			} else if f[2] != f[3] {
 				e.r.Fail(common.Mismatch{Property: "C18", Kind: "broken-correspondence", Ops: ops, Impl: string(impl), Model: f[2], Spec: f[3],
-					Note: "hypothesis AttackersIncremental violated: incremental capture sequence differs from recomputation (answers agree on the tested thresholds)"})
+					Note: "lemma attackers_incremental contradicted on the model: incremental capture sequence differs from recomputation (answers agree on the tested thresholds)"})
 			}
 			// histogram / non-trivial
 			ncaps := 0
@@ -441,9 +441,9 @@ func runPicker(b *board.Board, hm move.Move, ms *move.Store, mr *heur.MoveRanker
 
 func (e *env) c16() {
 	n := e.c.Pick(600, 30000)
-	nRandom := e.c.Pick(200, 40)
+	nRandom := e.c.Pick(200, 30)
 	rng := e.c.Rng
-	e.r.Rule = "valid positions x {no hash move, every generated move, 200 (quick) / 40 (thorough) random 15-bit encodings (foreign moves of other positions, promotion flags on non-promotions, from-squares without an own man, near misses of generated moves)} x history states driven through the exported API (NewMoveRanker/FailHigh/RankNoisy/RankQuiet, stack.Stack) by random FailHigh scripts and by saturating ones (>= 5000 identical updates with extreme depths to the same cells); the sequence (move, weight) yielded by the real picker.Picker (and for every 8th run exhaustion + the final YieldedMoves() buffer) vs the Lean picker model whose ranker replays the same script; checked in Go directly: yielded multiset = generated pseudo-legal moves, no duplicates, hash move first iff IsPseudoLegal, every noisy weight inside the good/bad capture band and every quiet weight within +-3*MaxHistory; evaluations = picker runs; non-trivial = run whose hash move is pseudo-legal (stage 1 + sentinel path) or whose position has both good and bad captures, distinct by (FEN, hash move, history script number)"
+	e.r.Rule = "valid positions x {no hash move, every generated move, 200 (quick) / 30 (thorough) random 15-bit encodings (foreign moves of other positions, promotion flags on non-promotions, from-squares without an own man, near misses of generated moves)} x history states driven through the exported API (NewMoveRanker/FailHigh/RankNoisy/RankQuiet, stack.Stack) by random FailHigh scripts and by saturating ones (>= 5000 identical updates with extreme depths to the same cells); the sequence (move, weight) yielded by the real picker.Picker (and for every 8th run exhaustion + the final YieldedMoves() buffer) vs the Lean picker model whose ranker replays the same script; checked in Go directly: yielded multiset = generated pseudo-legal moves, no duplicates, hash move first iff IsPseudoLegal, every noisy weight inside the good/bad capture band and every quiet weight within +-3*MaxHistory; evaluations = picker runs; non-trivial = run whose hash move is pseudo-legal (stage 1 + sentinel path) or whose position has both good and bad captures, distinct by (FEN, hash move, history script number)"
 	mr := heur.NewMoveRanker()
 	ms := move.NewStore()
 	script := 0
@@ -464,8 +464,13 @@ func (e *env) c16() {
 		var reqs []string
 		// history state: sometimes start afresh, then FailHigh scripts on this position
 		if rng.IntN(25) == 0 {
-			mr = heur.NewMoveRanker()
-			reqs = append(reqs, "new")
+			if rng.IntN(2) == 0 {
+				mr = heur.NewMoveRanker()
+				reqs = append(reqs, "new")
+			} else {
+				mr.Clear()
+				reqs = append(reqs, "clear")
+			}
 			e.r.Count("ranker-reset", 1)
 		}
 		st := e.randomStack()
